@@ -2056,6 +2056,30 @@ class Engine:
         S.pop()
         return str(r), m, dt
 
+    def check_wild(s, m0):
+        """m0 violates an address-enumeration obligation. If some access can land OUTSIDE every live allocation while every access
+        that is not program-order-after it (in any thread) stays inside its enumerated candidates, the execution up to that access
+        is modelled faithfully (no out-of-thin-air: R->W program order is kept by every model) and the access is a genuine
+        memory-safety violation of the program, not a wrong guess of the analysis. -> (event, model) or None"""
+        ev = lambda t: z3.is_true(m0.eval(t, model_completion=True))
+        sym = [e for e in s.events if e.kind in ('R', 'W') and not is_c(e.addr) and getattr(e, 'aset', None) is not None]
+        cands = []
+        for e in sym:
+            if not ev(s.G[e.id]): continue
+            a = m0.eval(e.addr, model_completion=True).as_long()
+            if a not in e.aset and not s.in_alloc(a, e.size) and a >= 4096: cands.append((e, a))
+        for e, a in cands[:3]:
+            S = s.S; S.push()
+            S.add(s.G[e.id]); S.add(tobv(e.addr, 64) == a)
+            for x in sym:
+                if x is e or any(y is e for y in x.anc): continue
+                if x.aset: S.add(z3.Implies(s.G[x.id], z3.Or(*[tobv(x.addr, 64) == av for av in sorted(x.aset)])))
+                else: S.add(z3.Not(s.G[x.id]))
+            r = S.check(); m = S.model() if r == z3.sat else None
+            S.pop()
+            if r == z3.sat: return e, a, m
+        return None
+
     def violated_obligs(s, m):
         out = []
         ev = lambda t: z3.is_true(m.eval(t, model_completion=True))
